@@ -61,7 +61,7 @@ func (jenny RawTypes) generateSchema(context languages.Context, schema *ast.Sche
 			return ""
 		}
 
-		return imports.Add(pkg, jenny.config.importPath(pkg))
+		return imports.Add(formatImportAlias(pkg), jenny.config.importPath(pkg))
 	}
 	jenny.typeFormatter = defaultTypeFormatter(jenny.config, context, imports, jenny.packageMapper)
 	unmarshallerGenerator := newJSONMarshalling(jenny.config, jenny.tmpl, imports, jenny.packageMapper, jenny.typeFormatter, jenny.apiRefCollector)
